@@ -7,7 +7,7 @@
      In e (waiting_exits f)         e is listed as a waiting exit
      In r (dependencies f)          r is listed as a dependency
    and the executions they are stated for are ALL traces accepted by the step acceptor of the model
-   ([accepts A tr = true]), for ALL lists of flows A: induction over the trace, the nodes and the actions.
+   ([accepts names A tr = true]), for ALL lists of flows A: induction over the trace, the nodes and the actions.
 
    The finite obligations over the source-derived table gen/ActionResults.v are at the end. *)
 From Coq Require Import List NArith Bool String Ascii Lia.
@@ -318,31 +318,31 @@ Proof. intros A id f H. unfold lookup_flow in H. apply find_some in H. apply H. 
 Lemma lookup_node_In : forall f id n, lookup_node f id = Some n -> In n (f_nodes f).
 Proof. intros f id n H. unfold lookup_node in H. apply find_some in H. apply H. Qed.
 
-Record step_facts (A : list flow) (o : ostep) (f : flow) (n : node) : Prop := {
+Record step_facts (names : list named) (A : list flow) (o : ostep) (f : flow) (n : node) : Prop := {
   sf_flow : lookup_flow A (os_flow o) = Some f;
   sf_node : In n (f_nodes f);
   sf_saves : match_saves (node_emitters n (os_exit o)) (os_saved o) = true;
-  sf_touched : touched_ok n (os_touched o) = true;
+  sf_touched : touched_ok names n (os_touched o) = true;
   sf_exit : exit_ok n o = true
 }.
 
-Lemma step_ok_facts : forall A st o st', step_ok A st o = Some st' -> exists f n, step_facts A o f n.
+Lemma step_ok_facts : forall names A st o st', step_ok names A st o = Some st' -> exists f n, step_facts names A o f n.
 Proof.
-  intros A st o st' H. unfold step_ok in H.
+  intros names A st o st' H. unfold step_ok in H.
   destruct (lookup_flow A (os_flow o)) as [f|] eqn:Ef; [|discriminate].
   destruct (lookup_node f (os_node o)) as [n|] eqn:En; [|discriminate].
   destruct (position_ok A st f o && match_saves (node_emitters n (os_exit o)) (os_saved o)
-            && touched_ok n (os_touched o) && exit_ok n o) eqn:E; [|discriminate].
+            && touched_ok names n (os_touched o) && exit_ok n o) eqn:E; [|discriminate].
   apply andb_true_iff in E. destruct E as [E E4]. apply andb_true_iff in E. destruct E as [E E3].
   apply andb_true_iff in E. destruct E as [_ E2].
   exists f, n. constructor; try assumption. apply lookup_node_In with (id := os_node o). exact En.
 Qed.
 
-Lemma accepts_from_steps : forall A tr st, accepts_from A st tr = true ->
-  forall o, In o tr -> exists f n, step_facts A o f n.
+Lemma accepts_from_steps : forall names A tr st, accepts_from names A st tr = true ->
+  forall o, In o tr -> exists f n, step_facts names A o f n.
 Proof.
   induction tr as [|o1 tr IH]; intros st H o Ho; [destruct Ho|].
-  cbn [accepts_from] in H. destruct (step_ok A st o1) as [st'|] eqn:E; [|discriminate].
+  cbn [accepts_from] in H. destruct (step_ok names A st o1) as [st'|] eqn:E; [|discriminate].
   destruct Ho as [Ho|Ho].
   - subst o1. apply step_ok_facts with (st := st) (st' := st'). exact E.
   - apply IH with (st := st'); assumption.
@@ -367,11 +367,11 @@ Definition saved_by_open_ticket (f : flow) (nc : text * text) : Prop :=
 
 (* every step of the trace is one the model can take (what [accepts] establishes, and what the executable engine
    of model/InspectExec.v establishes for its own traces) *)
-Definition steps_ok (A : list flow) (tr : list ostep) : Prop :=
-  forall o, In o tr -> exists f n, step_facts A o f n.
+Definition steps_ok (names : list named) (A : list flow) (tr : list ostep) : Prop :=
+  forall o, In o tr -> exists f n, step_facts names A o f n.
 
-Lemma accepts_steps_ok : forall A tr, accepts A tr = true -> steps_ok A tr.
-Proof. intros A tr H o Ho. apply (accepts_from_steps A tr [] H o Ho). Qed.
+Lemma accepts_steps_ok : forall names A tr, accepts names A tr = true -> steps_ok names A tr.
+Proof. intros names A tr H o Ho. apply (accepts_from_steps names A tr [] H o Ho). Qed.
 
 (* an action that can save (name, cat) either declares it, or is an open_ticket saving under its result_name *)
 Lemma action_can_save_declared_or_f16 : forall a nc,
@@ -387,11 +387,11 @@ Proof.
     apply text_eqb_eq in Hname. rewrite Hname. reflexivity.
 Qed.
 
-Lemma step_results_covered : forall A o f n,
-  forallb valid_flow A = true -> step_facts A o f n ->
+Lemma step_results_covered : forall names A o f n,
+  forallb valid_flow A = true -> step_facts names A o f n ->
   forall nc, In nc (os_saved o) -> result_covered f nc \/ saved_by_open_ticket f nc.
 Proof.
-  intros A o f n Hv F nc Hnc. destruct F as [Ff Fn Fs _ _].
+  intros names A o f n Hv F nc Hnc. destruct F as [Ff Fn Fs _ _].
   assert (HfA : In f A) by (apply lookup_flow_In with (id := os_flow o); exact Ff).
   assert (Hvn : valid_node n = true) by (apply valid_flows_node with (A := A) (f := f); assumption).
   destruct (match_saves_sound _ _ Fs nc Hnc) as [e [He Henc]].
@@ -414,32 +414,32 @@ Proof.
 Qed.
 
 (* the sharp statement: every saved result is covered, or it is exactly an open_ticket's result (F16) *)
-Lemma results_covered_or_f16_steps : forall A tr,
-  forallb valid_flow A = true -> steps_ok A tr ->
+Lemma results_covered_or_f16_steps : forall names A tr,
+  forallb valid_flow A = true -> steps_ok names A tr ->
   forall fid nc, In (fid, nc) (saved_results tr) ->
   exists f, lookup_flow A fid = Some f /\ (result_covered f nc \/ saved_by_open_ticket f nc).
 Proof.
-  intros A tr Hv Hok fid nc Hin. unfold saved_results in Hin. apply in_flat_map in Hin.
+  intros names A tr Hv Hok fid nc Hin. unfold saved_results in Hin. apply in_flat_map in Hin.
   destruct Hin as [o [Ho Hnc]]. apply in_map_iff in Hnc. destruct Hnc as [nc' [Heq Hnc]].
   inversion Heq; subst fid nc'; clear Heq.
-  destruct (Hok o Ho) as [f [n F]]. exists f. split; [apply (sf_flow _ _ _ _ F)|].
-  apply step_results_covered with (A := A) (o := o) (n := n); assumption.
+  destruct (Hok o Ho) as [f [n F]]. exists f. split; [apply (sf_flow _ _ _ _ _ F)|].
+  apply step_results_covered with (names := names) (A := A) (o := o) (n := n); assumption.
 Qed.
 
-Lemma results_covered_or_f16 : forall A tr,
-  forallb valid_flow A = true -> accepts A tr = true ->
+Lemma results_covered_or_f16 : forall names A tr,
+  forallb valid_flow A = true -> accepts names A tr = true ->
   forall fid nc, In (fid, nc) (saved_results tr) ->
   exists f, lookup_flow A fid = Some f /\ (result_covered f nc \/ saved_by_open_ticket f nc).
-Proof. intros A tr Hv Hacc. apply results_covered_or_f16_steps; [exact Hv | apply accepts_steps_ok; exact Hacc]. Qed.
+Proof. intros names A tr Hv Hacc. apply results_covered_or_f16_steps with (names := names); [exact Hv | apply accepts_steps_ok; exact Hacc]. Qed.
 
 (* corollary: flows without open_ticket actions *)
-Lemma results_covered_partial : forall A tr,
-  forallb valid_flow A = true -> no_open_ticket A = true -> accepts A tr = true ->
+Lemma results_covered_partial : forall names A tr,
+  forallb valid_flow A = true -> no_open_ticket A = true -> accepts names A tr = true ->
   forall fid nc, In (fid, nc) (saved_results tr) ->
   exists f, lookup_flow A fid = Some f /\ result_covered f nc.
 Proof.
-  intros A tr Hv Hn Hacc fid nc Hin.
-  destruct (results_covered_or_f16 A tr Hv Hacc fid nc Hin) as [f [Hf [Hc|[n [a [Hn' [Ha Hb]]]]]]].
+  intros names A tr Hv Hn Hacc fid nc Hin.
+  destruct (results_covered_or_f16 names A tr Hv Hacc fid nc Hin) as [f [Hf [Hc|[n [a [Hn' [Ha Hb]]]]]]].
   - exists f. split; assumption.
   - exfalso. unfold no_open_ticket in Hn. rewrite forallb_forall in Hn.
     specialize (Hn f (lookup_flow_In _ _ _ Hf)). rewrite forallb_forall in Hn. specialize (Hn n Hn').
@@ -464,7 +464,7 @@ Definition f16_trace : list ostep :=
        os_touched := [ {| r_kind := KTopic; r_id := t "t1" |} ]; os_exit := Some 1; os_resumed := false |} ].
 
 Lemma results_covered_refuted :
-  exists A tr, forallb valid_flow A = true /\ accepts A tr = true /\
+  exists A tr, forallb valid_flow A = true /\ accepts [] A tr = true /\
     exists fid nc f, In (fid, nc) (saved_results tr) /\ lookup_flow A fid = Some f /\ ~ result_covered f nc.
 Proof.
   exists [f16_flow], f16_trace. split; [vm_compute; reflexivity|]. split; [vm_compute; reflexivity|].
@@ -485,7 +485,7 @@ Definition fold_trace : list ostep :=
        os_touched := []; os_exit := Some 1; os_resumed := false |} ].
 
 Lemma category_literally_listed_refuted :
-  exists A tr, forallb valid_flow A = true /\ no_open_ticket A = true /\ accepts A tr = true /\
+  exists A tr, forallb valid_flow A = true /\ no_open_ticket A = true /\ accepts [] A tr = true /\
     exists fid nc f, In (fid, nc) (saved_results tr) /\ lookup_flow A fid = Some f /\
       forall s, In s (inspect_results f) -> rs_key s = snakify (fst nc) -> ~ In (snd nc) (rs_cats s).
 Proof.
@@ -505,12 +505,12 @@ Proof.
   apply N.eqb_eq in He. subst e. apply in_map. exact Hx.
 Qed.
 
-Lemma waiting_exits_listed_steps : forall A tr,
-  forallb valid_flow A = true -> steps_ok A tr ->
+Lemma waiting_exits_listed_steps : forall names A tr,
+  forallb valid_flow A = true -> steps_ok names A tr ->
   forall fid e, In (fid, e) (resumed_exits tr) ->
   exists f, lookup_flow A fid = Some f /\ In e (waiting_exits f).
 Proof.
-  intros A tr Hv Hacc fid e Hin. unfold resumed_exits in Hin. apply in_flat_map in Hin.
+  intros names A tr Hv Hacc fid e Hin. unfold resumed_exits in Hin. apply in_flat_map in Hin.
   destruct Hin as [o [Ho He]].
   destruct (os_exit o) as [e'|] eqn:Ee; [|destruct He]. destruct (os_resumed o) eqn:Er; [|destruct He].
   destruct He as [He|[]]. inversion He; subst fid e'; clear He.
@@ -527,11 +527,11 @@ Proof.
   rewrite forallb_forall in Hcats. apply exit_in_In. apply Hcats. exact Hc.
 Qed.
 
-Lemma waiting_exits_listed : forall A tr,
-  forallb valid_flow A = true -> accepts A tr = true ->
+Lemma waiting_exits_listed : forall names A tr,
+  forallb valid_flow A = true -> accepts names A tr = true ->
   forall fid e, In (fid, e) (resumed_exits tr) ->
   exists f, lookup_flow A fid = Some f /\ In e (waiting_exits f).
-Proof. intros A tr Hv Hacc. apply waiting_exits_listed_steps; [exact Hv | apply accepts_steps_ok; exact Hacc]. Qed.
+Proof. intros names A tr Hv Hacc. apply waiting_exits_listed_steps with (names := names); [exact Hv | apply accepts_steps_ok; exact Hacc]. Qed.
 
 (* conversely the list is exact: only exits of nodes whose router has a wait *)
 Lemma waiting_exits_only_waits : forall f e, In e (waiting_exits f) ->
@@ -575,30 +575,103 @@ Proof.
   intro H. apply dedup_refs_sub in H. destruct H as [_ H]. apply H. left. reflexivity.
 Qed.
 
-Lemma dependencies_listed_steps : forall A tr,
-  steps_ok A tr ->
+(* an asset a node of the flow touches without a fixed reference to it being written there (hunt findings 2, 3):
+   named by an expression-free name_match / email_match / legacy_vars value, or the default topic of open_ticket *)
+Definition touched_implicitly (names : list named) (f : flow) (r : aref) : Prop :=
+  exists n, In n (f_nodes f) /\ In r (node_implicit_refs names n).
+
+(* the sharp statement: a reference a step carries is a dependency, or is exactly such an implicitly named asset *)
+Lemma dependencies_or_implicit_steps : forall names A tr,
+  steps_ok names A tr ->
   forall fid r, In (fid, r) (assets_touched tr) ->
-  exists f, lookup_flow A fid = Some f /\ In r (dependencies f) /\ ref_variable r = false.
+  exists f, lookup_flow A fid = Some f
+    /\ ((In r (dependencies f) /\ ref_variable r = false) \/ touched_implicitly names f r).
 Proof.
-  intros A tr Hacc fid r Hin. unfold assets_touched in Hin. apply in_flat_map in Hin.
+  intros names A tr Hacc fid r Hin. unfold assets_touched in Hin. apply in_flat_map in Hin.
   destruct Hin as [o [Ho Hr]]. apply in_map_iff in Hr. destruct Hr as [r' [Heq Hr]].
   inversion Heq; subst fid r'; clear Heq.
   destruct (Hacc o Ho) as [f [n F]]. destruct F as [Ff Fn _ Ft _].
   exists f. split; [exact Ff|].
-  unfold touched_ok in Ft. rewrite forallb_forall in Ft. specialize (Ft r Hr). apply ref_in_In in Ft.
-  assert (Hfix : ref_variable r = false).
-  { unfold node_asset_refs, keep_fixed in Ft. apply filter_In in Ft. destruct Ft as [_ Ft].
-    apply negb_true_iff in Ft. exact Ft. }
-  split; [|exact Hfix]. unfold dependencies.
-  destruct (dedup_refs_keeps (extract_refs f) [] r) as [H|H]; [|destruct H|exact H].
-  unfold extract_refs. apply in_flat_map. exists n. split; assumption.
+  unfold touched_ok in Ft. rewrite forallb_forall in Ft. specialize (Ft r Hr). apply orb_true_iff in Ft.
+  destruct Ft as [Ft|Ft]; apply ref_in_In in Ft.
+  - left.
+    assert (Hfix : ref_variable r = false).
+    { unfold node_asset_refs, keep_fixed in Ft. apply filter_In in Ft. destruct Ft as [_ Ft].
+      apply negb_true_iff in Ft. exact Ft. }
+    split; [|exact Hfix]. unfold dependencies.
+    destruct (dedup_refs_keeps (extract_refs f) [] r) as [H|H]; [|destruct H|exact H].
+    unfold extract_refs. apply in_flat_map. exists n. split; assumption.
+  - right. exists n. split; assumption.
 Qed.
 
-Lemma dependencies_listed : forall A tr,
-  accepts A tr = true ->
+Lemma dependencies_or_implicit : forall names A tr,
+  accepts names A tr = true ->
+  forall fid r, In (fid, r) (assets_touched tr) ->
+  exists f, lookup_flow A fid = Some f
+    /\ ((In r (dependencies f) /\ ref_variable r = false) \/ touched_implicitly names f r).
+Proof. intros names A tr Hacc. apply dependencies_or_implicit_steps. apply accepts_steps_ok. exact Hacc. Qed.
+
+(* corollary: when no name of the flows denotes an asset (no literal name_match / email_match / legacy_vars value
+   naming an existing asset, no open_ticket without topic where a topic "General" exists) every carried reference
+   is a dependency *)
+Definition no_implicit (names : list named) (A : list flow) : Prop :=
+  forall f n, In f A -> In n (f_nodes f) -> node_implicit_refs names n = [].
+
+Lemma dependencies_listed_partial : forall names A tr,
+  no_implicit names A -> accepts names A tr = true ->
   forall fid r, In (fid, r) (assets_touched tr) ->
   exists f, lookup_flow A fid = Some f /\ In r (dependencies f) /\ ref_variable r = false.
-Proof. intros A tr Hacc. apply dependencies_listed_steps. apply accepts_steps_ok. exact Hacc. Qed.
+Proof.
+  intros names A tr Hno Hacc fid r Hin.
+  destruct (dependencies_or_implicit names A tr Hacc fid r Hin) as [f [Hf [H|[n [Hn Hr]]]]].
+  - exists f. split; [exact Hf | exact H].
+  - exfalso. rewrite (Hno f n (lookup_flow_In _ _ _ Hf) Hn) in Hr. destruct Hr.
+Qed.
+
+(* the full statement (every carried reference is a dependency) is false of the model: an open_ticket without topic
+   opens its ticket with the topic named "General" of the session assets, which inspection does not list *)
+Definition f2_flow : flow :=
+  {| f_id := 0; f_uuid := text_of_string "f0";
+     f_nodes := [ {| n_id := 1;
+                     n_actions := [ {| a_items := []; a_behav := BSaver SvOpenTicket (text_of_string "Ticket") |} ];
+                     n_router := None; n_exits := [ {| e_id := 1; e_dest := None |} ] |} ] |}.
+
+Definition f2_names : list named :=
+  [ {| nm_kind := KTopic; nm_name := text_of_string "General"; nm_id := text_of_string "topic-0" |} ].
+
+Definition f2_trace : list ostep :=
+  [ {| os_run := 0; os_parent := None; os_flow := 0; os_node := 1;
+       os_saved := [(text_of_string "Ticket", text_of_string "Success")];
+       os_touched := [ {| r_kind := KTopic; r_id := text_of_string "topic-0" |} ]; os_exit := Some 1; os_resumed := false |} ].
+
+Lemma dependencies_listed_refuted :
+  exists names A tr, forallb valid_flow A = true /\ accepts names A tr = true /\
+    exists fid r f, In (fid, r) (assets_touched tr) /\ lookup_flow A fid = Some f /\ ~ In r (dependencies f).
+Proof.
+  exists f2_names, [f2_flow], f2_trace. split; [vm_compute; reflexivity|]. split; [vm_compute; reflexivity|].
+  exists 0, {| r_kind := KTopic; r_id := text_of_string "topic-0" |}, f2_flow.
+  split; [left; reflexivity|]. split; [reflexivity|]. intro H. vm_compute in H. exact H.
+Qed.
+
+(* the same for a group named by an expression-free name_match *)
+Definition f3_flow : flow :=
+  {| f_id := 0; f_uuid := text_of_string "f0";
+     f_nodes := [ {| n_id := 1;
+                     n_actions := [ {| a_items := [IVar KGroup {| t_raw := text_of_string "Testers"; t_paths := []; t_literal := true |}];
+                                       a_behav := BPlain |} ];
+                     n_router := None; n_exits := [ {| e_id := 1; e_dest := None |} ] |} ] |}.
+
+Lemma dependencies_listed_refuted_by_name :
+  exists names A tr, forallb valid_flow A = true /\ accepts names A tr = true /\
+    exists fid r f, In (fid, r) (assets_touched tr) /\ lookup_flow A fid = Some f /\ ~ In r (dependencies f).
+Proof.
+  exists [ {| nm_kind := KGroup; nm_name := text_of_string "testers"; nm_id := text_of_string "g-7" |} ], [f3_flow],
+    [ {| os_run := 0; os_parent := None; os_flow := 0; os_node := 1; os_saved := [];
+         os_touched := [ {| r_kind := KGroup; r_id := text_of_string "g-7" |} ]; os_exit := Some 1; os_resumed := false |} ].
+  split; [vm_compute; reflexivity|]. split; [vm_compute; reflexivity|].
+  exists 0, {| r_kind := KGroup; r_id := text_of_string "g-7" |}, f3_flow.
+  split; [left; reflexivity|]. split; [reflexivity|]. intro H. vm_compute in H. exact H.
+Qed.
 
 (* the dependency list has no duplicates and nothing that is not written in the flow *)
 Lemma dependencies_exact : forall f,
@@ -618,7 +691,7 @@ Definition ex_parent : flow :=
        {| n_id := 1;
           n_actions := [ {| a_items := [IRef {| r_kind := KGroup; r_id := t "g1" |}]; a_behav := BPlain |};
                          {| a_items := []; a_behav := BSetRunResult (t "My Result") (t "Yes") |} ];
-          n_router := Some {| rt_switch := true; rt_operand := {| t_raw := t "@input.text"; t_paths := [[t "input"; t "text"]] |};
+          n_router := Some {| rt_switch := true; rt_operand := {| t_raw := t "@input.text"; t_paths := [[t "input"; t "text"]]; t_literal := false |};
                               rt_cases := []; rt_default := Some 1; rt_result_name := t "Color";
                               rt_categories := [ {| c_id := 1; c_name := t "Other"; c_exit := 1 |};
                                                  {| c_id := 2; c_name := t "No Response"; c_exit := 2 |} ];
@@ -649,7 +722,7 @@ Definition ex_trace2 : list ostep :=
 
 Example hypotheses_satisfiable :
   forallb valid_flow [ex_parent; ex_child] = true /\ no_open_ticket [ex_parent; ex_child] = true
-  /\ accepts [ex_parent; ex_child] ex_trace = true /\ accepts [ex_parent; ex_child] ex_trace2 = true
+  /\ accepts [] [ex_parent; ex_child] ex_trace = true /\ accepts [] [ex_parent; ex_child] ex_trace2 = true
   /\ List.length (saved_results ex_trace) = 2%nat /\ List.length (resumed_exits ex_trace) = 1%nat
   /\ List.length (assets_touched ex_trace2) = 1%nat /\ List.length (saved_results ex_trace2) = 2%nat.
 Proof. vm_compute. repeat split; reflexivity. Qed.
@@ -657,16 +730,16 @@ Proof. vm_compute. repeat split; reflexivity. Qed.
 (* the acceptor rejects what the engine cannot do: a result under a name no action of the node has, an exit no
    category points to, a resumed step on a node without wait, an asset not written in the node *)
 Example acceptor_rejects :
-  accepts [ex_parent; ex_child]
+  accepts [] [ex_parent; ex_child]
     [ {| os_run := 0; os_parent := None; os_flow := 0; os_node := 1; os_saved := [(t "Other Name", t "Yes")];
          os_touched := []; os_exit := Some 1; os_resumed := true |} ] = false
-  /\ accepts [ex_parent; ex_child]
+  /\ accepts [] [ex_parent; ex_child]
     [ {| os_run := 0; os_parent := None; os_flow := 0; os_node := 1; os_saved := [(t "Color", t "Other")];
          os_touched := []; os_exit := Some 2; os_resumed := true |} ] = false
-  /\ accepts [ex_parent; ex_child]
+  /\ accepts [] [ex_parent; ex_child]
     [ {| os_run := 0; os_parent := None; os_flow := 1; os_node := 3; os_saved := [];
          os_touched := []; os_exit := Some 4; os_resumed := true |} ] = false
-  /\ accepts [ex_parent; ex_child]
+  /\ accepts [] [ex_parent; ex_child]
     [ {| os_run := 0; os_parent := None; os_flow := 0; os_node := 1; os_saved := [];
          os_touched := [ {| r_kind := KGroup; r_id := t "g2" |} ]; os_exit := Some 1; os_resumed := false |} ] = false.
 Proof. vm_compute. repeat split; reflexivity. Qed.
